@@ -311,6 +311,10 @@ func SwitchCiphertextRingDegree(ctIn, opOut *Element[ring.Poly]) {
 			tmp0, tmp1 := opOut.Value[i].Coeffs[j], ctIn.Value[i].Coeffs[j]
 			for w0, w1 := 0, 0; w0 < NOut; w0, w1 = w0+gapIn, w1+gapOut {
 				tmp0[w0] = tmp1[w1]
+				// Y -> X^{gapIn}: the coefficients in between are zero
+				for w := 1; w < gapIn; w++ {
+					tmp0[w0+w] = 0
+				}
 			}
 		}
 	}
